@@ -475,6 +475,18 @@ func poolMain(prop, tier string, seed uint64, out, replay string) error {
 		scens, tags = []PScen{*s}, [][]string{nil}
 	} else {
 		scens, tags = genPool(newRng(seed), tier)
+		if prop == "C19" {
+			// C19 claims only "a pool size <= 0 means one worker": keep the scenarios of those sizes
+			var s2 []PScen
+			var t2 [][]string
+			for i, sc := range scens {
+				if sc.Workers <= 0 {
+					s2 = append(s2, sc)
+					t2 = append(t2, tags[i])
+				}
+			}
+			scens, tags = s2, t2
+		}
 	}
 	st := newStats()
 	var cases []coqCase
